@@ -22,6 +22,9 @@ CHECKS = {
     "C05": ("property-based testing with fault injection: 16 violation classes injected into clean base programs, confirmed by the dynamic monitor where observable",
             "Generated-input search over base program x violation class x site/register: a diagnostic of the class's kind must be located in the class's acceptance set. Exploration; evidence tabulates cases per class.",
             "Trusts the clean generator's metadata (sites) and the convention monitor.", "5/C05"),
+    "C06": ("property-based testing / generative fuzzing with process isolation: hostile text in five modes + structural scaling families, in-process with catch_unwind and deterministic sweep limit, CLI under a CPU-time limit; libFuzzer targets in the thorough tier",
+            "Generated-input search: ~20 000 hostile inputs per quick run (thorough: 1.5 M plus coverage-guided libFuzzer campaigns) through the library entry point in the overflow-checked and the release profile, a sample through the rva binary in all 9 output modes; crash, panic, stack overflow, sweep-limit, import-budget and CPU-limit are violations, a wall-clock watchdog expiry is inconclusive. Work bound from deterministic hook counters. Exploration.",
+            "Absence of crashes is only established for the inputs generated; stack exhaustion depends on the 8 MiB default stack.", "5/C06"),
     "C07": ("property-based testing (proptest choice sequences): coverage oracle + deletion metamorphic relation over generated files with injected malformed lines",
             "Generated-input search: thousands of generated one-statement-per-line files with malformed lines of 14 kinds at random positions (LF/CRLF, with/without final newline, include split); every content line must be covered by a node or an error on it, and all other lines must parse as in the file with the malformed lines deleted. Exploration, not proof: absence of a violation is only established for the cases generated.",
             "Trusts the harness's own line arithmetic (recomputed from raw offsets) and the generator's list of malformed-line kinds.", "5/C07"),
@@ -49,6 +52,9 @@ CHECKS = {
     "C15": ("property-based testing: metamorphic relation split-with-.include vs pasted single file, reader fault injection, differential CLI vs in-memory reader",
             "Generated-input search over programs x include trees x reader faults: located diagnostics of the split program must equal those of the pasted file, failing includes must be reported on their path operand, the CLI must show/count the same items and terminate (CPU-time limit, not wall clock). Exploration.",
             "Trusts the in-memory reader's notion of 'already read' (by path) and the renderer's source map.", "5/C15"),
+    "C18": ("property-based testing: differential between the CLI's output channels (compact, pretty, JSON, colour) and the library entry point, format parsers with strict shapes",
+            "Generated-input search over single/multi-file programs written to disk and linted by the rva binary in 8 modes; items, order, counts, excerpts, markers and severities must agree between channels and with RVParser::run. Exploration.",
+            "Trusts the harness's parsers of the three output formats.", "5/C18"),
     "C16": ("property-based testing with fault injection: CFG-level faults of 12 kinds injected into parse-clean generated programs",
             "Generated-input search: undefined/duplicate labels must be named at an occurrence; every other error that stops the analysis must be specific, attached to a user file and located. Exploration.",
             "Label definitions/uses are computed from the model, locations through the renderer's source map.", "5/C16"),
